@@ -6,7 +6,9 @@ literally (same checks in the same order, same float -> usize casts, same
 callback order).  Behaviour that depends on hash order, addresses or on memory
 corruption in the real implementation raises Refuse.
 
-Exports: lookup(it, obj, name), iter_of(it, v), install_globals(it).
+Exports: lookup(it, obj, name), iter_of(it, v), install_globals(it), and the
+optional pre-pass annotate_lambda_names(stmts) (without it `name()` of a lambda
+is refused).
 """
 import math
 import re
@@ -1281,12 +1283,43 @@ def closure_params(clo):
     return fn.b if fn.k == 'fn' else fn.a
 
 
+def annotate_lambda_names(stmts):
+    """Optional pre-pass over a program (list of lyast statements): stores in
+    every lambda node's spare slot `x` the name the VM gives that function. The
+    parser names a lambda after the innermost `let` whose initializer encloses
+    it lexically (at any depth, also through nested fn / class / lambda bodies),
+    and "lambda" otherwise. That name is what `name()` returns and what
+    backtraces show (`in g()` for `let g = |x| ...`)."""
+    from lyast import N
+
+    def walk(x, let_name):
+        if isinstance(x, N):
+            if x.k == 'let':
+                walk(x.b, x.a)
+                return
+            if x.k == 'lambda':
+                x.x = let_name or 'lambda'
+                walk(x.b, let_name)
+                return
+            if x.k in ('num', 'str', 'bool', 'nil', 'var', 'raw', 'raws'):
+                return
+            for f in (x.a, x.b, x.c, x.d, x.e):
+                walk(f, let_name)
+        elif isinstance(x, (list, tuple)):
+            for y in x:
+                walk(y, let_name)
+
+    walk(stmts, None)
+
+
 @FUN.add('name', 0)
 def _fun_name(it, a):
     if a[0].kind == 'lambda':
-        # the parser names a lambda after the `let` whose initializer encloses
-        # it (at any depth), otherwise "lambda"; the evaluator does not track it
-        raise Refuse('name of a lambda (depends on an enclosing let)')
+        name = getattr(a[0].fn, 'x', None)
+        if not isinstance(name, str):
+            # see annotate_lambda_names: the evaluator does not track the name
+            raise Refuse('name of a lambda (depends on an enclosing let; run annotate_lambda_names first)')
+        return name
     return a[0].name
 
 
@@ -1419,3 +1452,8 @@ def install_globals(it):
         g[name] = Cell(c)
     it.builtin_classes = reg
     it.map_versions = {}
+    # every class inherits Object's natives (reachable through `super.` too);
+    # classes that exist already got their method table copied before this ran
+    for cls in [it.object_class] + list(getattr(it, 'errors', {}).values()):
+        for name, nat in OBJECT.items():
+            cls.methods.setdefault(name, nat)
